@@ -41,7 +41,7 @@ func (eng *Engine) newPureEnc(pkg, name string) *fnEnc {
 		closures: map[ssa.Value]*ssa.MakeClosure{},
 		reach:   map[*ssa.BasicBlock]Term{}, outSt: map[*ssa.BasicBlock]*state{}, edge: map[[2]int]Term{},
 		oblNames: map[string]int{}, assumptions: map[string]bool{}, strLits: map[string]Term{},
-		ghostVars: map[string]Term{}, paramVal: map[string]SVal{}, implFns: map[string]*types.Interface{}, backGoals: map[int][]*backEdgeGoals{}, embIDs: map[string]int{}, invUse: map[string]bool{}, acquired: map[string]*state{},
+		ghostVars: map[string]Term{}, paramVal: map[string]SVal{}, implFns: map[string]*types.Interface{}, backGoals: map[int][]*backEdgeGoals{}, embIDs: map[string]int{}, invUse: map[string]bool{}, acquired: map[string]*state{}, fieldGuardCount: map[string]int{},
 	}
 	st := &state{m: map[string]Term{}}
 	st.alloc = e.declare("alloc@0", SInt)
